@@ -326,10 +326,20 @@ def _run_hyp(sub, tier, seed_value, nshards, rec, handle):
         suppress_health_check=list(HealthCheck),
     )(t)
     t = seed(seed_value)(t)
+    from hypothesis.errors import Flaky
+
     try:
         t()
     except _Fail:
         pass  # rec.failure holds the last (minimal) failing case
+    except Flaky:
+        # The oracle failed on a case, but the same case passed when Hypothesis ran it again: the outcome depends
+        # on what ran before in this process (state carried between runs of the code under test). The violation
+        # was observed on real executions, so it is reported; the replay file may not reproduce it in isolation.
+        if rec.failure is None:
+            raise
+        case, msg = rec.failure
+        rec.failure = (case, msg + "  [not reproducible in isolation: the outcome depended on earlier cases run in the same process]")
     finally:
         rec.shrinking = False
 
